@@ -274,7 +274,7 @@ package parser
 //@   ensures [C18:lines-mono] old(p.curToken.LineNumber) <= p.curToken.LineNumber
 //@   loopinv [C18:lines-mono-inv] old(p.curToken.LineNumber) <= p.curToken.LineNumber && pre(p.curToken.LineNumber) <= p.curToken.LineNumber
 //@   ensures [C18:consume] Consumed(p, old(Left(p)), old(p.curToken))
-//@   loopinv [C18:consume-inv] Consumed(p, old(Left(p)), old(p.curToken))
+//@   loopinv [C18:consume-inv] Consumed(p, old(Left(p)), old(p.curToken)) && Consumed(p, pre(Left(p)), pre(p.curToken))
 //@   loopdecr [C18:term] Left(p)
 //@   termassume NoNul(p.l.input)
 //@   modifies p.curToken, p.peekToken, p.peek2Token, p.peek3Token, p.peek4Token, p.breakStack, p.continueStack, p.fonts, fields(p.l)
@@ -290,7 +290,7 @@ package parser
 //@   ensures [C18:lines-mono] old(p.curToken.LineNumber) <= p.curToken.LineNumber
 //@   loopinv [C18:lines-mono-inv] old(p.curToken.LineNumber) <= p.curToken.LineNumber && pre(p.curToken.LineNumber) <= p.curToken.LineNumber
 //@   ensures [C18:consume] Consumed(p, old(Left(p)), old(p.curToken))
-//@   loopinv [C18:consume-inv] Consumed(p, old(Left(p)), old(p.curToken))
+//@   loopinv [C18:consume-inv] Consumed(p, old(Left(p)), old(p.curToken)) && Consumed(p, pre(Left(p)), pre(p.curToken))
 //@   loopdecr [C18:term] Left(p)
 //@   termassume NoNul(p.l.input)
 //@   modifies fields(p), fields(p.l)
@@ -306,7 +306,7 @@ package parser
 //@   ensures [C18:lines-mono] old(p.curToken.LineNumber) <= p.curToken.LineNumber
 //@   loopinv [C18:lines-mono-inv] old(p.curToken.LineNumber) <= p.curToken.LineNumber && pre(p.curToken.LineNumber) <= p.curToken.LineNumber
 //@   ensures [C18:consume] Consumed(p, old(Left(p)), old(p.curToken))
-//@   loopinv [C18:consume-inv] Consumed(p, old(Left(p)), old(p.curToken))
+//@   loopinv [C18:consume-inv] Consumed(p, old(Left(p)), old(p.curToken)) && Consumed(p, pre(Left(p)), pre(p.curToken))
 //@   loopdecr [C18:term] Left(p)
 //@   termassume NoNul(p.l.input)
 //@   ensures [C18:pstate] PState(p) && PSame(p, old(p.l), old(p.l.input)) && PMaps(p, old(p.constants), old(p.inlineTextsSet), old(p.inlineTextCounts), old(p.inlineMovementsSet), old(p.inlineMovementCounts))
@@ -523,6 +523,7 @@ package parser
 
 //@ func (p *Parser) parseStatement
 //@   include ParseFrame
+//@   ensures [C18:eof-rejected] result2 == nil ==> old(p.curToken.Type) != token.EOF
 //@   ensures [C06:slot] result2 == nil ==> (ImpOK(result1) && (result1 == nil || fresh(result1)))
 //@   modifies holes
 //@   ensures [C06:complete] result2 == nil ==> ImpSize(result1) == holes - old(holes)
@@ -595,6 +596,8 @@ package parser
 
 //@ func (p *Parser) parsePoryswitchHeader
 //@   include ParseFrame
+//@   requires [C12:at-poryswitch] p.curToken.Type == token.PORYSWITCH
+//@   ensures [C18:consume-strict] result2 == nil ==> Left(p) < old(Left(p))
 //@   ensures [C20:stack-balanced] result2 == nil ==> (SameStack(p.breakStack, old(p.breakStack)) && SameStack(p.continueStack, old(p.continueStack)))
 //@   ensures [C18:located] result2 != nil ==> ErrLoc(result2)
 //@   loopinv [C20:stack-balanced-inv] SameStack(p.breakStack, old(p.breakStack)) && SameStack(p.continueStack, old(p.continueStack))
@@ -611,6 +614,8 @@ package parser
 
 //@ func (p *Parser) parsePoryswitchTextStatement
 //@   include ParseFrame
+//@   requires [C12:at-poryswitch] p.curToken.Type == token.PORYSWITCH
+//@   ensures [C18:consume-strict] result2 == nil ==> Left(p) < old(Left(p))
 //@   exit [C12:select-text] result2 == nil ==> (indom(cases, switchValue) ? (result0 == cases[switchValue] && result1 == strTypeCases[switchValue])
 //@       : (indom(cases, "_") ? (result0 == cases["_"] && result1 == strTypeCases["_"]) : (result0 == "" && result1 == "")))
 //@   exit [C12:no-case] (result2 == nil && p.enableEnvironmentErrors) ==> (indom(cases, switchValue) || indom(cases, "_"))
@@ -646,6 +651,7 @@ package parser
 //@              && len(movementCommands) >= len(prev(movementCommands)) + 1
 //@              && (forall k int :: {movementCommands[k]} (len(prev(movementCommands)) <= k && k < len(movementCommands)) ==> movementCommands[k] == prev(p.curToken))))
 //@   loop 2
+//@     decreases [C18:term] num - i
 //@     invariant [C14:mul-inv] 0 <= i && i <= num && len(movementCommands) == outer(len(movementCommands)) + i && PrefixKeptT(movementCommands, outer(movementCommands))
 //@        && (forall k int :: {movementCommands[k]} (outer(len(movementCommands)) <= k && k < len(movementCommands)) ==> movementCommands[k] == moveCommand)
 //@ end
@@ -661,6 +667,8 @@ package parser
 
 //@ func (p *Parser) parsePoryswitchListStatement
 //@   include ParseFrame
+//@   requires [C12:at-poryswitch] p.curToken.Type == token.PORYSWITCH
+//@   ensures [C18:consume-strict] result1 == nil ==> Left(p) < old(Left(p))
 //@   exit [C12:select] result1 == nil ==> (indom(cases, switchValue) ? result0 == cases[switchValue] : (indom(cases, "_") ? result0 == cases["_"] : len(result0) == 0))
 //@   exit [C12:no-case] (result1 == nil && p.enableEnvironmentErrors) ==> (indom(cases, switchValue) || indom(cases, "_"))
 //@   fnparam parseFunc implements ListParserFn
@@ -916,6 +924,8 @@ package parser
 
 //@ func (p *Parser) parsePoryswitchStatement
 //@   include ParseFrame
+//@   requires [C12:at-poryswitch] p.curToken.Type == token.PORYSWITCH
+//@   ensures [C18:consume-strict] result2 == nil ==> Left(p) < old(Left(p))
 //@   exit [C12:select-stmts] result2 == nil ==> (indom(cases, switchValue) ? result0 == cases[switchValue] : (indom(cases, "_") ? result0 == cases["_"] : len(result0) == 0))
 //@   exit [C12:select-imp] result2 == nil ==> (indom(cases, switchValue) ? result1 == caseImpData[switchValue] : (indom(cases, "_") ? result1 == caseImpData["_"] : result1 == nil))
 //@   exit [C12:no-case] (result2 == nil && p.enableEnvironmentErrors) ==> (indom(cases, switchValue) || indom(cases, "_"))
